@@ -456,11 +456,18 @@ impl<'a> Gen<'a> {
             };
             acts.push(a);
         }
-        let recount = self.rng.pct(30);
+        let mut recount = self.rng.pct(30);
         let fin = match self.rng.weighted(&c.fin_w) {
             0 => Fin::Ok,
             1 => Fin::Err,
-            _ => Fin::Panic,
+            _ => {
+                if self.rng.pct(50) {
+                    recount = false;
+                    Fin::LatePanic
+                } else {
+                    Fin::Panic
+                }
+            }
         };
         Round { acts, recount, fin }
     }
